@@ -231,81 +231,81 @@ func evaluateTokens(msg messageInfo, tokens []string, charset string, userID int
 			i++
 
 		case "ANSWERED":
-			if !strings.Contains(msg.flags, "\\Answered") {
+			if !hasFlag(msg.flags, "\\Answered") {
 				return false
 			}
 			i++
 
 		case "DELETED":
-			if !strings.Contains(msg.flags, "\\Deleted") {
+			if !hasFlag(msg.flags, "\\Deleted") {
 				return false
 			}
 			i++
 
 		case "DRAFT":
-			if !strings.Contains(msg.flags, "\\Draft") {
+			if !hasFlag(msg.flags, "\\Draft") {
 				return false
 			}
 			i++
 
 		case "FLAGGED":
-			if !strings.Contains(msg.flags, "\\Flagged") {
+			if !hasFlag(msg.flags, "\\Flagged") {
 				return false
 			}
 			i++
 
 		case "NEW":
 			// NEW = RECENT UNSEEN
-			if !strings.Contains(msg.flags, "\\Recent") || strings.Contains(msg.flags, "\\Seen") {
+			if !hasFlag(msg.flags, "\\Recent") || hasFlag(msg.flags, "\\Seen") {
 				return false
 			}
 			i++
 
 		case "OLD":
 			// OLD = NOT RECENT
-			if strings.Contains(msg.flags, "\\Recent") {
+			if hasFlag(msg.flags, "\\Recent") {
 				return false
 			}
 			i++
 
 		case "RECENT":
-			if !strings.Contains(msg.flags, "\\Recent") {
+			if !hasFlag(msg.flags, "\\Recent") {
 				return false
 			}
 			i++
 
 		case "SEEN":
-			if !strings.Contains(msg.flags, "\\Seen") {
+			if !hasFlag(msg.flags, "\\Seen") {
 				return false
 			}
 			i++
 
 		case "UNANSWERED":
-			if strings.Contains(msg.flags, "\\Answered") {
+			if hasFlag(msg.flags, "\\Answered") {
 				return false
 			}
 			i++
 
 		case "UNDELETED":
-			if strings.Contains(msg.flags, "\\Deleted") {
+			if hasFlag(msg.flags, "\\Deleted") {
 				return false
 			}
 			i++
 
 		case "UNDRAFT":
-			if strings.Contains(msg.flags, "\\Draft") {
+			if hasFlag(msg.flags, "\\Draft") {
 				return false
 			}
 			i++
 
 		case "UNFLAGGED":
-			if strings.Contains(msg.flags, "\\Flagged") {
+			if hasFlag(msg.flags, "\\Flagged") {
 				return false
 			}
 			i++
 
 		case "UNSEEN":
-			if strings.Contains(msg.flags, "\\Seen") {
+			if hasFlag(msg.flags, "\\Seen") {
 				return false
 			}
 			i++
@@ -383,7 +383,7 @@ func evaluateTokens(msg messageInfo, tokens []string, charset string, userID int
 			}
 			i++
 			keyword := unquote(tokens[i])
-			if !strings.Contains(msg.flags, keyword) {
+			if !hasFlag(msg.flags, keyword) {
 				return false
 			}
 			i++
@@ -395,7 +395,7 @@ func evaluateTokens(msg messageInfo, tokens []string, charset string, userID int
 			}
 			i++
 			keyword := unquote(tokens[i])
-			if strings.Contains(msg.flags, keyword) {
+			if hasFlag(msg.flags, keyword) {
 				return false
 			}
 			i++
@@ -469,6 +469,17 @@ func evaluateTokens(msg messageInfo, tokens []string, charset string, userID int
 }
 
 // Helper functions for search criteria evaluation
+
+// hasFlag reports whether flag is one of the space-separated flags of a message. A substring test is not
+// enough: "Junk" is part of "NonJunk", and "\\Seen" of any flag that merely starts with it
+func hasFlag(flags string, flag string) bool {
+	for _, f := range strings.Fields(flags) {
+		if strings.EqualFold(f, flag) {
+			return true
+		}
+	}
+	return false
+}
 
 func isSequenceSet(token string) bool {
 	// Check if token looks like a sequence number or range (e.g., "1", "2:4", "1:*", "*")
@@ -1567,7 +1578,7 @@ func HandleExpunge(deps ServerDeps, conn net.Conn, tag string, state *models.Cli
 	// We need to get the sequence numbers before deletion
 	rows, err := userDB.Query(`
 		SELECT id, uid FROM message_mailbox
-		WHERE mailbox_id = ? AND flags LIKE '%\Deleted%'
+		WHERE mailbox_id = ? AND (' ' || flags || ' ') LIKE '% \Deleted %'
 		ORDER BY uid ASC
 	`, state.SelectedMailboxID)
 
